@@ -32,6 +32,10 @@ pub enum Op {
 	Drop { f: usize },
 	Dup { f: usize },
 	Splice { f: usize, from: usize, g: usize, insert: bool },
+	/// joint mutation of a segment identifier: height and idx fields (None = keep the seed's value)
+	Ident { fh: usize, fi: usize, h: Option<u8>, idx: Option<u64> },
+	/// consistent re-encoding of a segment proof with one hash less (-1), one more (+1) or none (0)
+	ProofLen { f: usize, delta: i8 },
 }
 
 #[derive(Clone, Debug)]
@@ -156,7 +160,9 @@ impl Space {
 			let f = p["f"].as_u64().expect("f") as usize; // 1-based field index, 0 = whole layout
 			for o in p["ops"].as_array().expect("ops") {
 				let name = o["op"].as_str().unwrap_or("");
-				let mut push = |op: Op| ops.push((lay as u32, op, o.clone()));
+				// (the identifier plans expand to thousands of cases: keep only the class name with each of them)
+				let slim = if name.starts_with("ident") { json!({"op": name}) } else { o.clone() };
+				let mut push = |op: Op| ops.push((lay as u32, op, slim.clone()));
 				match name {
 					"set" => {
 						let fld = &s.fields[f - 1];
@@ -179,6 +185,52 @@ impl Space {
 					"trunc_every" => {
 						for at in 0..s.bytes.len() {
 							push(Op::Trunc { at });
+						}
+					}
+					"ident" => {
+						// cross product heights x idx values (256 / e = -2: keep the seed's value)
+						let g = o["g"].as_u64().unwrap_or(0) as usize;
+						if g >= 1 && g <= s.fields.len() && s.fields[f - 1].w == 1 && s.fields[g - 1].w == 8 {
+							for h in o["hs"].as_array().map(|a| a.as_slice()).unwrap_or(&[]) {
+								let h = h.as_u64().unwrap_or(256);
+								for v in o["vs"].as_array().map(|a| a.as_slice()).unwrap_or(&[]) {
+									let idx = if v["e"].as_i64() == Some(-2) {
+										None
+									} else {
+										match plan_value(v) {
+											Some(x) if x <= u64::MAX as u128 => Some(x as u64),
+											_ => continue,
+										}
+									};
+									push(Op::Ident { fh: f - 1, fi: g - 1, h: if h > 255 { None } else { Some(h as u8) }, idx });
+								}
+							}
+						}
+					}
+					"identprod" => {
+						// idx * 2^height lands on 2^e + d * 2^height: the wrap-around boundaries of the leaf offset
+						let g = o["g"].as_u64().unwrap_or(0) as usize;
+						if g >= 1 && g <= s.fields.len() && s.fields[f - 1].w == 1 && s.fields[g - 1].w == 8 {
+							for e in o["es"].as_array().map(|a| a.as_slice()).unwrap_or(&[]) {
+								for h in o["hs"].as_array().map(|a| a.as_slice()).unwrap_or(&[]) {
+									for d in o["ds"].as_array().map(|a| a.as_slice()).unwrap_or(&[]) {
+										let (e, h, d) = (e.as_i64().unwrap_or(0), h.as_i64().unwrap_or(0), d.as_i64().unwrap_or(0));
+										if e - h < 0 || e - h > 63 || h > 255 {
+											continue;
+										}
+										let v = (1i128 << (e - h)) + d as i128;
+										if v < 0 || v > u64::MAX as i128 {
+											continue;
+										}
+										push(Op::Ident { fh: f - 1, fi: g - 1, h: Some(h as u8), idx: Some(v as u64) });
+									}
+								}
+							}
+						}
+					}
+					"proof" => {
+						for d in o["deltas"].as_array().map(|a| a.as_slice()).unwrap_or(&[]) {
+							push(Op::ProofLen { f: f - 1, delta: d.as_i64().unwrap_or(0) as i8 });
 						}
 					}
 					"drop" => push(Op::Drop { f: f - 1 }),
@@ -210,6 +262,19 @@ impl Space {
 			b.extend_from_slice(&pl.to_be_bytes());
 			regs.push((tix("MerkleProof::read"), b.clone(), 0, None, format!("path_len:{}", l)));
 			regs.push((tix("MerkleProof::from_hex"), crate::worker::hex(&b).into_bytes(), 0, None, format!("path_len:{}", l)));
+		}
+		{
+			// c5cb61fce: identifier {height 1, idx 2^62}, one block of two empty chunks, empty proof: the leaf offset 2^63
+			// passed every checked_* guard and insertion_to_pmmr_index wrapped inside BitmapSegment::into_segment
+			let mut b = vec![1u8];
+			b.extend_from_slice(&(1u64 << 62).to_be_bytes());
+			b.extend_from_slice(&[0, 1, 2, 1, 0, 0]);
+			b.extend_from_slice(&0u64.to_be_bytes());
+			regs.push((tix("BitmapSegment::read"), b.clone(), 0, None, "bitmap_idx_2^62_height_1".into()));
+			let mut r = vec![7u8; 32];
+			r.extend_from_slice(&b);
+			r.extend_from_slice(&[9u8; 32]);
+			regs.push((tix("OutputBitmapSegmentResponse::read"), r, 0, None, "bitmap_idx_2^62_height_1".into()));
 		}
 		for (ct, sd) in seeds.iter() {
 			if *ct == Ct::Auto && sd.target.contains("Segment") && !sd.target.contains("Bitmap") {
@@ -258,6 +323,8 @@ impl Space {
 				let both = matches!(op, Op::Set { .. });
 				let vers: Vec<u32> = if thorough {
 					VERSIONS.to_vec()
+				} else if matches!(op, Op::Ident { .. }) {
+					vec![s.ver]
 				} else {
 					let other = VERSIONS[j % 4];
 					if other == s.ver {
@@ -342,6 +409,48 @@ impl Space {
 				out.extend_from_slice(&b[fl.off..]);
 				out
 			}
+			Op::Ident { fh, fi, h, idx } => {
+				let mut out = b.clone();
+				if let Some(h) = h {
+					out[s.fields[*fh].off] = *h;
+				}
+				if let Some(v) = idx {
+					let o = s.fields[*fi].off;
+					out[o..o + 8].copy_from_slice(&v.to_be_bytes());
+				}
+				out
+			}
+			Op::ProofLen { f, delta } => {
+				let fl = &s.fields[*f];
+				let mut cnt = [0u8; 8];
+				cnt.copy_from_slice(&b[fl.off..fl.off + 8]);
+				let v = u64::from_be_bytes(cnt) as usize;
+				let first = fl.off + 8; // the hashes follow the count
+				let end = first + 32 * v;
+				let mut out = b[..fl.off].to_vec();
+				let (newv, body): (usize, Vec<u8>) = match *delta {
+					-1 if v >= 1 => (v - 1, b[first..end - 32].to_vec()),
+					1 => {
+						let mut x = b[first..end.min(b.len())].to_vec();
+						x.extend_from_slice(&[0x5au8; 32]);
+						(v + 1, x)
+					}
+					0 => (0, vec![]),
+					_ => (v, b[first..end.min(b.len())].to_vec()),
+				};
+				out.extend_from_slice(&(newv as u64).to_be_bytes());
+				out.extend_from_slice(&body);
+				out.extend_from_slice(&b[end.min(b.len())..]);
+				if s.target == "Codec::read" && s.fields.len() > 3 && s.fields[3].kind == "u64" && out.len() >= 11 {
+					// keep the frame header's announced length consistent with the re-encoded body
+					let o = s.fields[3].off;
+					let mut l = [0u8; 8];
+					l.copy_from_slice(&b[o..o + 8]);
+					let nl = (u64::from_be_bytes(l) as i64 + out.len() as i64 - b.len() as i64).max(0) as u64;
+					out[o..o + 8].copy_from_slice(&nl.to_be_bytes());
+				}
+				out
+			}
 			Op::Splice { f, from, g, insert } => {
 				let fl = &s.fields[*f];
 				let d = &self.seeds[*from].1;
@@ -387,7 +496,7 @@ impl Space {
 					aux: s.aux,
 					ctx: s.ctx.clone(),
 					origin: json!({"gen": "mut", "seed": s.label, "enc_ver": s.ver, "lay": seed, "plan": plan, "op": format!("{:?}", o),
-						"field_kind": match o { Op::Set{f,..} | Op::Drop{f} | Op::Dup{f} | Op::Splice{f,..} => s.fields[*f].kind, _ => "" }}),
+						"field_kind": match o { Op::Set{f,..} | Op::Drop{f} | Op::Dup{f} | Op::Splice{f,..} | Op::ProofLen{f,..} => s.fields[*f].kind, Op::Ident{..} => "ident", _ => "" }}),
 					expect_ok: false,
 					expect_post: false,
 				}
